@@ -45,6 +45,11 @@ func (e *Env) tryLoc(x Expr) *locPat {
 		return nil
 	case *EStar:
 		v := e.eval(n.X)
+		if v.ty.gt != nil {
+			if mt, ok := v.ty.gt.Underlying().(*types.Map); ok {
+				return &locPat{base: v.term, typ: &mapCells{mt}}
+			}
+		}
 		u, ok := v.ty.gt.Underlying().(*types.Slice)
 		if v.ty.gt == nil || !ok {
 			panic(genErr("[*] on non-slice %s", exprString(n.X)))
@@ -65,6 +70,14 @@ func (e *Env) tryLoc(x Expr) *locPat {
 		}
 		return e.pointee(n.X)
 	case *EIdent:
+		if cv, ok := e.capt[n.Name]; ok {
+			return &locPat{base: cv.addr, typ: cv.typ}
+		}
+		if e.g != nil && e.capt == nil {
+			if fv := e.g.freeVar(n.Name); fv != nil {
+				return &locPat{base: e.g.params[n.Name].term, typ: fv.(*types.Pointer).Elem()}
+			}
+		}
 		return e.pointee(n)
 	case *EField:
 		p := e.tryLoc(n.X)
@@ -140,6 +153,9 @@ func (g *FnGen) subPaths(t types.Type) []subPath {
 	var rec func(t types.Type, pre []int)
 	rec = func(t types.Type, pre []int) {
 		out = append(out, subPath{pre, t})
+		if _, ok := t.(*mapCells); ok {
+			return
+		}
 		if si := g.c.reg.structOf(t); si != nil {
 			for i, f := range si.fields {
 				rec(f.typ, append(append([]int{}, pre...), i))
@@ -172,7 +188,7 @@ func (g *FnGen) coveredTyped(a string, pats []*locPat, t types.Type) string {
 			continue
 		}
 		for _, sp := range g.subPaths(p.typ) {
-			if types.Identical(sp.typ, t) {
+			if sameType(sp.typ, t) {
 				ds = append(ds, matchRef(a, p, sp.path))
 			}
 		}
@@ -331,4 +347,13 @@ func (g *FnGen) locsetSorts(fc *FuncContract, ct *callTarget, args []TVal, m Cla
 		return
 	}
 	g.cellSorts(p.typ, heapSorts)
+}
+
+func sameType(a, b types.Type) bool {
+	ma, oka := a.(*mapCells)
+	mb, okb := b.(*mapCells)
+	if oka || okb {
+		return oka && okb && types.Identical(ma.m, mb.m)
+	}
+	return types.Identical(a, b)
 }
